@@ -91,6 +91,7 @@ def entries():
     from nflows.nn import nets
     from nflows.distributions.mixture import MADEMoG
     from nflows.transforms import nonlinearities as NL
+    from nflows.utils import torchutils
 
     def resnet(ctxf=None, hidden=8, bn=False, dropout=0.0):
         return lambda i, o: nets.ResidualNet(i, o, hidden_features=hidden, context_features=ctxf, num_blocks=1, use_batch_norm=bn, dropout_probability=dropout)
@@ -108,6 +109,9 @@ def entries():
     add("AffineCoupling", "transform", lambda: TR.AffineCouplingTransform(mask4, resnet()), _rn(4), flags={"inv"})
     add("AffineCoupling/ctx", "transform", lambda: TR.AffineCouplingTransform(mask4, resnet(3)), _rn(4), _rn(3), flags={"inv"})
     add("AffineCoupling/general-act", "transform", lambda: TR.AffineCouplingTransform(mask4, resnet(), scale_activation=TR.AffineCouplingTransform.GENERAL_SCALE_ACTIVATION), _rn(4), flags={"inv"})
+    # which features a layer leaves alone is drawn in the constructor (and travels in the index buffers)
+    add("AffineCoupling/random-mask", "transform", lambda: TR.AffineCouplingTransform(torchutils.create_random_binary_mask(6), lambda i, o: nets.ResidualNet(i, o, hidden_features=8, num_blocks=1)), _rn(6), flags={"inv", "ctor_random"})
+    add("PiecewiseRQCoupling/random-mask+tails", "transform", lambda: TR.PiecewiseRationalQuadraticCouplingTransform(torchutils.create_random_binary_mask(5), lambda i, o: nets.ResidualNet(i, o, hidden_features=8, num_blocks=1), num_bins=4, tails="linear", tail_bound=1.5), _rn(5), flags={"inv", "spline", "ctor_random"})
     add("AdditiveCoupling", "transform", lambda: TR.AdditiveCouplingTransform(mask4, resnet()), _rn(4), flags={"inv"})
     add("AffineCoupling/resnet-batchnorm", "transform", lambda: TR.AffineCouplingTransform(mask4, resnet(bn=True)), _rn(4), flags={"inv", "inner_bn"})
     add("AffineCoupling/image", "transform", lambda: TR.AffineCouplingTransform([1, 0, 1], convnet()), _rn(3, 2, 3), flags={"inv", "image"})
@@ -202,6 +206,8 @@ def entries():
     add("Exp", "transform", lambda: NL.Exp(), _rn(3), flags={"anyshape", "inv", "noparams"}, y=_ru(3, lo=0.1, hi=3.0))
     add("Tanh", "transform", lambda: NL.Tanh(), _rn(3), flags={"anyshape", "inv", "noparams"}, y=_ru(3, lo=-0.9, hi=0.9))
     add("LogTanh", "transform", lambda: NL.LogTanh(cut_point=1), (lambda n, g: 2.0 * torch.randn(n, 3, generator=g)), flags={"anyshape", "inv", "noparams"})
+    add("LogTanh/cut=2.5", "transform", lambda: NL.LogTanh(cut_point=2.5), (lambda n, g: 3.0 * torch.randn(n, 3, generator=g)), flags={"anyshape", "inv", "noparams"})
+    add("LogTanh/cut=0.4", "transform", lambda: NL.LogTanh(cut_point=0.4), (lambda n, g: 1.5 * torch.randn(n, 3, generator=g)), flags={"anyshape", "inv", "noparams"})
     add("LeakyReLU", "transform", lambda: NL.LeakyReLU(0.1), _rn(3), flags={"anyshape", "inv", "noparams"})
     add("LeakyReLU/slope>1", "transform", lambda: NL.LeakyReLU(2.5), _rn(3), flags={"anyshape", "inv", "noparams"})
     add("Sigmoid/numpy-temperature", "transform", lambda: NL.Sigmoid(temperature=1.0 / np.sqrt(2.0)), _rn(3), flags={"inv", "noparams"}, y=_ru(3))
@@ -245,10 +251,21 @@ def entries():
     add("StandardNormal/2d", "dist", lambda: D.StandardNormal([2, 2]), _rn(2, 2), flags={"sample", "noparams", "mean"})
     add("DiagonalNormal", "dist", lambda: D.DiagonalNormal([3]), _rn(3), flags={})
     add("ConditionalDiagonalNormal", "dist", lambda: D.ConditionalDiagonalNormal([3], context_encoder=torch.nn.Linear(2, 6)), _rn(3), _rn(2), flags={"sample", "needs_ctx", "mean"})
+    # scalar events (shape []): inputs of shape [n], the context row IS (mean, log_std)
+    add("ConditionalDiagonalNormal/scalar-event", "dist", lambda: D.ConditionalDiagonalNormal([]), _rn(), (lambda n, g: 0.5 * torch.randn(n, 2, generator=g)), flags={"sample", "needs_ctx", "mean", "noparams"})
     add("ConditionalDiagonalNormal/identity-encoder", "dist", lambda: D.ConditionalDiagonalNormal([3]), _rn(3), (lambda n, g: 0.5 * torch.randn(n, 6, generator=g)), flags={"sample", "needs_ctx", "mean", "noparams"})
     add("ConditionalIndependentBernoulli/identity-encoder", "dist", lambda: D.ConditionalIndependentBernoulli([3]), (lambda n, g: (torch.rand(n, 3, generator=g) < 0.5).float()), _rn(3), flags={"sample", "needs_ctx", "discrete", "mean", "noparams"})
     add("ConditionalIndependentBernoulli", "dist", lambda: D.ConditionalIndependentBernoulli([3], context_encoder=torch.nn.Linear(2, 3)), (lambda n, g: (torch.rand(n, 3, generator=g) < 0.5).float()), _rn(2), flags={"sample", "needs_ctx", "discrete", "mean"})
     add("MADEMoG/one-feature", "dist", lambda: MADEMoG(1, 8, context_features=None, num_blocks=1, num_mixture_components=3), _rn(1), flags={"sample", "nonreparam"})
+    def mog_dominated():
+        # one component has died during training: its logit sits far below the others (its weight underflows to
+        # exactly zero, in double precision too); the density and its gradients are those of the two others
+        m = MADEMoG(2, 8, context_features=None, num_blocks=1, num_mixture_components=3)
+        with torch.no_grad():
+            m._made.final_layer.bias[6::9] = -800.0     # the logit of component 3, for every feature
+        return m
+
+    add("MADEMoG/dead-component", "dist", mog_dominated, _rn(2), flags={"sample", "nonreparam"})
     add("MADEMoG", "dist", lambda: MADEMoG(3, 8, context_features=2, num_blocks=1, num_mixture_components=3), _rn(3), _rn(2), flags={"sample", "needs_ctx", "nonreparam"})
     # ---- flows
     add("Flow(LU+MAF|Normal)", "flow", lambda: FL.base.Flow(TR.CompositeTransform([TR.LULinear(3, identity_init=False), TR.MaskedAffineAutoregressiveTransform(3, 8, num_blocks=1)]), D.StandardNormal([3])), _rn(3), flags={"sample"})
